@@ -260,6 +260,18 @@ def run(ctx, chk):
     chk.require(n_scanned > 1000, "A6", "scan", "", "only %d assignments scanned" % n_scanned)
 
     # ---- A4 arithmetic safety (assert events carry the number of facts known when they are reached)
+    rule_arith_guards(ctx, chk, "A4", rets)
+
+
+def rule_arith_guards(ctx, chk, rid, rets=None):
+    """every checked subtraction / addition in match_against is guarded on the path that reaches it (shared with C06:
+    an unguarded one is a panic inside match_order)"""
+    R = ctx.roles
+    b = ctx.db.method("OrderType", "match_against")
+    fn_key = b.defp
+    if rets is None:
+        rets = [r for r in ctx.walker().walk(b) if r.kind == "return"]
+    n = 0
     for p in rets:
         V = p.facts.variant.get(SUBJ)
         if V is None:
@@ -269,8 +281,10 @@ def run(ctx, chk):
         for e in p.events("assert"):
             _, msg, ops, s, nf, span, cond, expected = e
             key = "%s:%s:%s" % (fn_key, V, msg)
+            n += 1
             ok, why = discharge_arith(msg, ops, p.facts, nf, disp, hid)
-            chk.require(ok, "A4", key, span, "unguarded %s on %s: %s" % (msg, ", ".join(short(o) for o in ops), why), describe_path(p))
+            chk.require(ok, rid, key, span, "unguarded %s on %s: %s" % (msg, ", ".join(short(o) for o in ops), why), describe_path(p))
+    return n
 
 
 def upper_bounds(t):
